@@ -141,19 +141,25 @@ def angDiff (a b : Float) : Float :=
 
 def handleRt (args impl : List String) : String :=
   match fls args, fls impl with
-  | some [lat0, _lon0, lat, lon, dist], some [x, y, _azi, _rk, lat', lon', x', y'] =>
+  | some (lat0 :: _lon0 :: lat :: lon :: dist :: more), some [x, y, _azi, _rk, lat', lon', x', y'] =>
     -- a latitude of exactly ±45° hits the octant slip of the geodesic library's own sincosdx
     -- (recorded finding): such failures are labelled so that they are told apart from any other
     let tag := if Float.abs lat0 == 45.0 ∨ Float.abs lat == 45.0 then " tag=geodesic-lat45" else ""
-    if dist > 10100000.0 then
-      (if x.isNaN ∧ y.isNaN then "OK nt=1" else "VIOL clause=ge.horizon_nan")
-    else if dist < 9000000.0 then
-      if x.isNaN ∨ y.isNaN then "VIOL clause=ge.forward_nan"
+    -- the horizon: the geodesic scale M12 of the point relative to the centre (computed by the
+    -- harness with the geodesic library) is positive inside and negative beyond
+    let scale : Option Float := more.head?
+    let beyond : Bool := match scale with | some m => m < -1e-9 | none => dist > 10100000.0
+    let inside : Bool := match scale with | some m => m > 1e-9 | none => dist < 9000000.0
+    if beyond then
+      (if x.isNaN ∧ y.isNaN then "OK nt=1 cls=beyond" else "VIOL clause=ge.horizon_nan")
+    else if inside then
+      if x.isNaN ∨ y.isNaN then s!"VIOL clause=ge.forward_nan{tag}"
+      else if dist ≥ 9000000.0 then "OK nt=1 cls=inside_near_horizon"      -- accuracy is not claimed this close
       else if !(Float.abs (lat' - lat) ≤ 1e-9 ∧ (angDiff lon' lon ≤ 1e-9 ∨ Float.abs lat > 89.9999)) then
         s!"VIOL clause=ge.roundtrip_geo{tag} dlat={lat' - lat} dlon={angDiff lon' lon}"
       else if !(near 1e-6 1e-6 x x' ∧ near 1e-6 1e-6 y y') then s!"VIOL clause=ge.roundtrip_plane{tag}"
       else "OK nt=1"
-    else "SKIP reason=near_horizon"
+    else "SKIP reason=on_horizon"
   | _, _ => "BAD"
 
 def handleIx (args impl : List String) : String :=
